@@ -766,9 +766,9 @@ def _run_all(run, with_model):
 
     out = []
     run_probes(run, out)
-    plan = [(run_histories, 350 if thorough else 50, 12), (run_nearmiss, 1200 if thorough else 150, None),
-            (run_scripted, 4000 if thorough else 600, None), (run_invoke, 1000 if thorough else 150, None),
-            (run_http, 80 if thorough else 24, None), (run_optional, 40 if thorough else 8, None)]
+    plan = [(run_histories, 350 if thorough else 44, 12), (run_nearmiss, 1200 if thorough else 100, None),
+            (run_scripted, 4000 if thorough else 500, None), (run_invoke, 1000 if thorough else 100, None),
+            (run_http, 80 if thorough else 22, None), (run_optional, 40 if thorough else 8, None)]
     for fn, total, extra in plan:
         chunk = 100 if fn in (run_histories, run_http, run_optional) else 1000
         done = 0
